@@ -119,7 +119,7 @@ def cargo_check(d, mods, timeout=1500):
         m = re.match(r"^(?:src/|/)(\S+?):\d+:\d+: error(?:\[(E\d+)\])?: (.*)$", ln)
         if m:
             path = m.group(1)
-            mod = path.split("/")[0] if not ln.startswith("/") else next((x for x in path.split("/") if re.match(r"^[dwq]\d+", x)), path)
+            mod = path.split("/")[0] if not ln.startswith("/") else next((x for x in path.split("/") if re.match(r"^[dwqs]\d+", x)), path)
             errs.append((mod, m.group(2) or "syntax", m.group(3)[:300]))
         elif ln.startswith("error") and "could not compile" not in ln and "aborting" not in ln:
             errs.append(("?", "error", ln[:300]))
@@ -190,7 +190,8 @@ def classes_of(doc, scopes, names, cfg, ucyc):
                         cls.add("type-named-like-generic-parameter")
                     if e in bldgen.SHADOWING:
                         cls.add("item-shadows-prelude-name")
-                if k in ("typedef", "enum", "const") and (e[:1].islower() or e[:1] == "_"):
+                if k in ("typedef", "enum", "const") and e == e.lower() and not e.startswith("r#"):
+                    # local bindings of the emitted code are snake_case: only an all-lower-case value item can clash
                     cls.add("value-item-named-like-local-binding")
                 if k == "const" and e in bldgen.RUST_KEYWORDS:
                     cls.add("const-named-like-keyword")
@@ -227,7 +228,8 @@ def scrape_structs(text):
 def gen_docs(rng, tier):
     n_th = 8 if tier == "quick" else 40
     n_pb = 3 if tier == "quick" else 12
-    docs = []
+    sw = bldgen.sweep_doc()
+    docs = [dict(id="s0", kind="thrift", doc=sw, files=sw.texts(), entry="main.thrift")]
     for i in range(n_th):
         r = random.Random(rng.randrange(1 << 30))
         doc = bldgen.gen_thrift_doc(r, exotic=r.choice([0.3, 0.6, 0.9]), union_cycles=0.08, path_kw_pairs=0.05)
@@ -547,7 +549,7 @@ def run(chk, replay=None):
     chk.sample(dict(line_cases=lines[:3] + lines[-3:]))
 
     # ---------------------------------------------------------------- report
-    budget = 12 if chk.tier == "quick" else 40
+    budget = 8 if chk.tier == "quick" else 40
     for d, c, what, b, es in failing[:3]:
         if d is None:
             chk.violation("C14 fails on the implementation: " + what, dict(kind="unattributed", errors=es[:10]))
@@ -566,7 +568,7 @@ def run(chk, replay=None):
         if nonidem and False:
             pass
         if not gate["ok"]:
-            chk.violation("proof obligation broken: %s (%s) -- %d emitted modules compiled" % (gate.get("failed"), gate.get("error", "")[:300], dist["compiled_modules"]),
+            chk.violation("proof obligation broken: %s (%s) -- %d emitted modules compiled" % (gate.get("failed"), " ".join((gate.get("error") or "").split())[:240], dist["compiled_modules"]),
                           dict(kind="proof", theorem_file="fam/bld/coq/Properties/C14.v", failed=gate.get("failed"), error=gate.get("error"),
                                theorems=gate["theorems"]), no_input=True)
     return chk.finish()
